@@ -54,6 +54,14 @@ def install() -> None:
     finally:
         threading.Thread, threading.Lock, threading.RLock = real_thread, real_lock, real_rlock
         mpcontext.SpawnProcess, mpcontext.ForkProcess = real_spawn, real_fork
+    # logging handlers created while the lock classes were substituted must get real locks back: the logging
+    # module mixes them with its own (real) module lock, and a simulated lock yields the baton on release
+    import logging  # pylint: disable=import-outside-toplevel
+
+    for ref in list(logging._handlerList):  # pylint: disable=protected-access
+        handler = ref() if callable(ref) else ref
+        if handler is not None and isinstance(getattr(handler, 'lock', None), sim.SimLock):
+            handler.createLock()
     prediction.multiprocessing = sim.multiprocessing_shim
     dispatch.futures = sim.futures_shim
     _strategy.threading = sim.threading_shim
